@@ -72,9 +72,22 @@ class Ctx:
         for n in ast.walk(body[-1].value):
             if isinstance(n, ast.Call) and not (isinstance(n.func, ast.Name) and n.func.id in ('len', 'int', 'byte2int', 'min', 'max', 'divmod')):
                 inner = self.pure_inline_call(n, m.mod, m.cls, depth + 1)
-                if inner is None:
+                if inner is None and not self._pure_lookup_call(n, m.cls):
                     return None
         return substitute(body[-1].value, env)
+
+    def _pure_lookup_call(self, call, cls):
+        """`self.m(args)` where m (public or private) is nothing but `return <expression without calls>`: a table lookup such as
+        IModbusSlaveContext.decode(fx); it stays a call in the inlined expression"""
+        f = call.func
+        if not (isinstance(f, ast.Attribute) and isinstance(f.value, ast.Name) and f.value.id == 'self' and cls is not None):
+            return False
+        m = self.idx.find_method(cls, f.attr)
+        if m is None or m.is_async:
+            return False
+        body = [st for st in m.node.body if not (isinstance(st, ast.Expr) and isinstance(st.value, ast.Constant))]
+        return len(body) == 1 and isinstance(body[0], ast.Return) and body[0].value is not None and \
+            not any(isinstance(x, (ast.Call, ast.Await, ast.Yield)) for x in ast.walk(body[0].value))
 
     def nz(self, mod=None, cls=None):
         n = Normaliser(self.ce, mod, cls)
